@@ -124,6 +124,21 @@ def run_config(cfg):
                         e.prove(False, "cell-never-written" + tag, detail=(r, j))
                     else:
                         e.prove_eq(got, mono, "cell" + tag, detail=(r, j))
+        # history: a flag is changed on the fitted object (set_params), which is fitted again on a matrix of the
+        # same width: counts, names and the transform's shape follow the new flag
+        if cfg.get("rows", 2) == 2:
+            for flag in ("poly_include_bias", "poly_interaction_only"):
+                cfg2 = dict(cfg, bias=(not cfg["bias"]) if flag == "poly_include_bias" else cfg["bias"], io=(not cfg["io"]) if flag == "poly_interaction_only" else cfg["io"])
+                if cfg2["degree"] == 0 and not cfg2["bias"]:
+                    continue
+                _, powers2 = _oracle(cfg2)
+                est2 = _make(cfg)
+                est2.fit(numpy.zeros((2, n)))
+                est2.set_params(**{flag: cfg2["bias"] if flag == "poly_include_bias" else cfg2["io"]})
+                est2.fit(numpy.zeros((3, n)))
+                e.prove(est2.n_output_features_ == powers2.shape[0] and len(est2.get_feature_names_out()) == powers2.shape[0], "refit-after-set_params/" + flag + "/n_output_features_", detail=(est2.n_output_features_, powers2.shape[0]))
+                out2 = est2.transform(e.reals("v", 1, n))
+                e.prove(out2.shape == (1, powers2.shape[0]), "refit-after-set_params/" + flag + "/transform-shape", detail=out2.shape)
 
     eng = sx.Engine(name=f"C11{cfg}")
     eng.explore(h)
@@ -147,6 +162,17 @@ def run_config(cfg):
 def replay(cfg, inputs, label):
     """Real ExtendedFeatures on floats vs real PolynomialFeatures."""
     n = cfg["n"]
+    if label.startswith("refit-after-set_params/"):
+        flag = label.split("/")[1]
+        cfg2 = dict(cfg, bias=(not cfg["bias"]) if flag == "poly_include_bias" else cfg["bias"], io=(not cfg["io"]) if flag == "poly_interaction_only" else cfg["io"])
+        pf2, powers2 = _oracle(cfg2)
+        est2 = _make(cfg).fit(numpy.zeros((2, n)))
+        est2.set_params(**{flag: cfg2["bias"] if flag == "poly_include_bias" else cfg2["io"]})
+        est2.fit(numpy.zeros((3, n)))
+        shape = est2.transform(numpy.ones((1, n))).shape
+        if est2.n_output_features_ != powers2.shape[0] or shape != (1, powers2.shape[0]):
+            return True, dict(history=f"fit, set_params({flag}=...), fit again (same width)", n_output_features_=int(est2.n_output_features_), transform_shape=list(shape), expected_columns=int(powers2.shape[0]))
+        return False, "refit follows the new flag"
     pf, powers = _oracle(cfg)
     est = _make(cfg)
     R = cfg.get("rows", 2)
